@@ -56,6 +56,9 @@ ExpList(cm, lst, i, cap) ==
   ELSE LET here == IF Expandable(cm, lst[i]) THEN Exp(cm, lst[i], cap) ELSE 0
        IN  IF here > cap THEN cap + 1 ELSE here + ExpList(cm, lst, i + 1, cap - here)
 
+\* the largest number of callees any method of the model has
+MaxOut(cm) == LET ls == {Len(cm[a]) : a \in DOMAIN cm} IN IF ls = {} THEN 0 ELSE CHOOSE n \in ls : \A k \in ls : k <= n
+
 Fits(cm, root) == ~Expandable(cm, root) \/ Exp(cm, root, Budget) <= Budget
 
 \* the reachable call relation from root
@@ -117,6 +120,12 @@ DiffCall(in, op, o) ==
         (IF Fits(cm, op.root)
          THEN {Item("C03", "missing-reachable-edge", ToString(e), {}) : e \in ReachRel(cm, op.root) \ es}
          ELSE {}) \cup
+        \* "terminates within its fixed expansion budget": an expansion writes one line per callee of the expanded method,
+        \* so the chain has at most Budget expansions' worth of lines (one more expansion is tolerated: whether the root's
+        \* own expansion counts is not stated). Without this a budget that no longer bounds the work goes unnoticed as long
+        \* as every line it writes is a real call.
+        (IF ~op.lookup /\ Len(o.edges) > (Budget + 1) * MaxOut(cm)
+         THEN {Item("C03", "expansion-budget-exceeded", ToString(Len(o.edges)) \o " edge lines", {})} ELSE {}) \cup
         (IF op.lookup
          THEN {Item("C04", "missing-direct-caller", c, {}) :
                  c \in {x \in RPred(rm, op.root) \ {op.root} : <<x, op.root>> \notin es}}
